@@ -133,6 +133,13 @@ def merge_rules(ctx, F, f, b):
         ctx.check("C36-c", "%s#commit-updated-when-merged" % fk, ok, "every merge of entries also folds in req.leader_commit_index",
                   "entries of a queued request can be merged without folding in its leader_commit_index: [AE(commit=7,[8]), AE(commit=9,[9])] commits "
                   "only 7 where sequential processing commits 9", loc(b, x))
+    # (added after seeded mutant C36-s1) ... and only then: a request that is pushed back un-merged must not leak its commit index
+    for w in lci:
+        ok = any(together(b, x, w[0], loops) for (x, _t) in a_ent)
+        ctx.check("C36-c", "%s#commit-only-when-merged" % fk, ok, "req.leader_commit_index is folded in only when req's entries are merged too",
+                  "the commit index of a queued request is folded into the front request on a path that does NOT merge its entries (e.g. before the "
+                  "max_merge_entries check pushes it back): the follower handles AE1 with AE2's commit index and can commit a stale tail beyond AE1 that "
+                  "AE2 was going to truncate", loc(b, w[0]))
     # ---------------------------------------------------------------- C36-d senders iff entries
     for (x, _t) in a_ent:
         ctx.check("C36-d", "%s#senders-with-entries" % fk, any(together(b, y, x, loops) for y, _ in a_snd), "senders appended whenever entries are",
